@@ -24,7 +24,17 @@ fn ovu(ov: &Value, k: &str) -> Option<usize> {
 const TRANSPORT_ERRORS: &[&str] = &["connection-refused", "connection-reset", "timeout", "http-500", "http-503", "http-400"];
 
 /// C10.
-pub fn run_c10(_prop: &str, tier: Tier, run_seed: u64, ov: &Value) -> RunOut {
+pub fn run_c10(prop: &str, tier: Tier, run_seed: u64, ov: &Value) -> RunOut {
+    // one run in five works at the wire: real front door, real hyper framing, real
+    // http_client, a link that cuts one /fragment response at enumerated offsets
+    let wire = ov.get("wire").and_then(|v| v.as_bool()).unwrap_or_else(|| Rng::new(run_seed).fork(99).chance(1, 5));
+    if wire {
+        return super::wire::run_c10_wire(prop, tier, run_seed, ov);
+    }
+    run_c10_transport(prop, tier, run_seed, ov)
+}
+
+fn run_c10_transport(_prop: &str, tier: Tier, run_seed: u64, ov: &Value) -> RunOut {
     let rng = Rng::new(run_seed);
     let mut out = RunOut::default();
     let mut log: Vec<String> = Vec::new();
@@ -248,6 +258,9 @@ enum Divergence {
     ExtraFile,
     MissingFile,
     SameLayoutOtherValues,
+    /// same names, same row-group row counts, same table total in bytes: the full-size row
+    /// groups of each file hold each other's rows, so only the per-split byte sizes move
+    PermuteRowGroups,
 }
 
 /// C14.
@@ -272,7 +285,7 @@ pub fn run_c14(_prop: &str, _tier: Tier, run_seed: u64, ov: &Value) -> RunOut {
         let t = &sc.world.tables[ti];
         let lay: &ParquetLayout = &sc.world.layouts[ti];
         let kind = *er.pick(&[Divergence::RenameFile, Divergence::RowGroupSize, Divergence::DropRow, Divergence::AddRow, Divergence::Reencode,
-                              Divergence::ExtraFile, Divergence::MissingFile, Divergence::SameLayoutOtherValues]);
+                              Divergence::ExtraFile, Divergence::MissingFile, Divergence::SameLayoutOtherValues, Divergence::PermuteRowGroups, Divergence::PermuteRowGroups]);
         let ddir = sc.world.root.join(format!("node{worker}")).join("divergent").join(&t.name);
         let files: Vec<std::path::PathBuf> = match kind {
             Divergence::RenameFile => {
@@ -333,6 +346,33 @@ pub fn run_c14(_prop: &str, _tier: Tier, run_seed: u64, ov: &Value) -> RunOut {
                 }
                 datagen::write_parquet(&t2, &ddir, lay).unwrap()
             }
+            Divergence::PermuteRowGroups => {
+                // per file: reverse the order of the full-size row groups, keep a short tail in place
+                let mut bounds = vec![0usize];
+                bounds.extend(lay.file_cuts.iter().cloned());
+                bounds.push(t.rows);
+                let rg = lay.row_group_rows.max(1);
+                let mut ranges: Vec<(usize, usize)> = Vec::new();
+                for f in 0..bounds.len() - 1 {
+                    let (lo, hi) = (bounds[f], bounds[f + 1]);
+                    let full = (hi - lo) / rg;
+                    for g in (0..full).rev() {
+                        ranges.push((lo + g * rg, lo + (g + 1) * rg));
+                    }
+                    if lo + full * rg < hi {
+                        ranges.push((lo + full * rg, hi));
+                    }
+                }
+                let mut t2 = t.restrict(0, 0);
+                for (a, b) in ranges {
+                    let piece = t.restrict(a, b);
+                    for (c, e) in t2.data.iter_mut().zip(piece.data.iter()) {
+                        append(c, e);
+                    }
+                    t2.rows += b - a;
+                }
+                datagen::write_parquet(&t2, &ddir, lay).unwrap()
+            }
         };
         // Is the difference split-relevant?  Decided from footers the harness reads itself.
         let mut mine: Vec<(String, Vec<(i64, i64)>)> = files.iter().map(footer_truth).collect();
@@ -354,7 +394,7 @@ pub fn run_c14(_prop: &str, _tier: Tier, run_seed: u64, ov: &Value) -> RunOut {
         strip_empty(&mut mine);
         strip_empty(&mut theirs);
         let relevant_strict = mine != theirs;
-        out.bump(&format!("fault.diverge_{:?}.armed", kind));
+        out.bump(&format!("n.divergent_workers.{:?}", kind));
         log.push(format!("worker={worker} table={} divergence={kind:?} relevant={relevant} strict={relevant_strict}", t.name));
         if !relevant_strict {
             out.bump("probe.divergence_not_split_relevant");
@@ -395,6 +435,9 @@ pub fn run_c14(_prop: &str, _tier: Tier, run_seed: u64, ov: &Value) -> RunOut {
                     out.bump("probe.out_of_range_refused");
                 }
                 let r = execute_fragment(&dctx, &req).await;
+                // armed: a fragment sent to the divergent copy; fired: the divergence touches
+                // what that fragment's digest covers, so a refusal is owed
+                out.bump(&format!("fault.diverge_{:?}.armed", kind));
                 if relevant_strict {
                     out.bump(&format!("fault.diverge_{:?}.fired", kind));
                     if let Ok((q, _)) = &r {
